@@ -67,7 +67,16 @@ def run(ctx):
     import contracts.core     # noqa: F401
     from pyvc.contract import REGISTRY
     from pyvc import run as prun
-    prun.run_contracts(ctx, [c for c in REGISTRY.values() if 'C10' in c.props], 'contracts.core')
+    prun.run_contracts(ctx, [c for c in REGISTRY.values() if 'C10' in c.props and
+                             c.__class__.__module__ == 'contracts.core'], 'contracts.core')
+    import contracts.blockiter     # noqa: F401
+    prun.run_contracts(ctx, [c for c in REGISTRY.values() if 'C10' in c.props and
+                             c.__class__.__module__ == 'contracts.blockiter'], 'contracts.blockiter')
+    ctx.assume('Block.__iter__ contract (contracts/blockiter.py): Python sets of wires / nets as membership arrays '
+               '(pop = arbitrary member, remove of a non-member raises KeyError); net_connections returns the '
+               'driver map and arbitrary user lists of block nets; partial correctness (termination of the '
+               'worklist loop is not an obligation); PyrtlError is permitted on every path (which blocks are '
+               'refused is the bounded family\'s subject)')
     fds = list(FAULT_DESIGNS)
     if ctx.tier != 'quick':
         fds += [{'name': 'rand_design', 'params': {'seed': s}} for s in range(12)]
